@@ -588,6 +588,23 @@ func genC17(g *G) {
 			}
 		}
 	}
+	// ---- an executed (or in-flight) record in front of, behind and between the proposals of a delivery that hits ONE
+	//      store fault at every call position (each kind): the records of the other proposals must not move
+	for _, setup := range []string{"D0/S0", "D0/S0/D2/S1", "D1/S0", "D0"} {
+		for _, del := range []string{"0,1", "1,0", "0,1,2", "2,1,0"} {
+			for k := 0; k < 2*len(strings.Split(del, ",")); k++ {
+				g.Emit("hist", "3", setup+"/D"+del+"@"+c3SingleFault(g, k)+"/R0,1,2/D0,1,2")
+			}
+		}
+	}
+	// ---- a stale session: released by a retry while stuck, re-delivered, executed by the newer session; then the
+	//      old watcher runs into its signing time-out (real code path). Any later retry / delivery must leave the
+	//      executed record alone.
+	for _, ns := range []string{"0", "1,2", "0,1,2"} {
+		g.Emit("hist", "3", "D"+ns+"/R"+ns+"/D"+ns+"/S1/T0/R0,1,2/D0,1,2")
+		g.Emit("hist", "3", "D"+ns+"/T0/R"+ns+"/D"+ns+"/S1/R0,1,2/D0,1,2")
+		g.Emit("hist", "3", "D"+ns+"/R"+ns+"/D"+ns+"/T0/S1/T1/D0,1,2")
+	}
 	// ---- liveness through the exported API only (few cases: a regression costs 8 s per hanging case)
 	for _, c := range [][2]string{{"m", "1"}, {"m", "01"}, {"mm", "001"}, {"fe", "-"}, {"mpm", "0001"}, {"-", "-"}} {
 		g.Emit("live", c[0], c[1])
